@@ -68,7 +68,7 @@ def run(case, ctx):
         if len(votes) != n:
             raise EndRun()
         for m, v in zip(members, votes):
-            m.drift_state = v
+            m.drift_state = v if v is None else "".join(list(v))   # an equal, but not the identical (interned) string object
         ctx.state(n, cfg["sensitivity"], cfg["wait_time"], tuple(counters), tuple(votes))
         if any(c > 0 and v == "warning" for c, v in zip(counters, votes)):
             ctx.probe("warning_while_waiting")
@@ -100,7 +100,7 @@ def run(case, ctx):
                 # monotonicity: one more member turning to drift never retracts the verdict
                 for i, v in enumerate(votes):
                     if v != "drift":
-                        members[i].drift_state = "drift"
+                        members[i].drift_state = "".join(["dr", "ift"])
                         g2 = ctx.call(f"C13:{name}", el, members)
                         members[i].drift_state = v
                         if g2 != "drift":
